@@ -1,12 +1,14 @@
 package main
 
 import (
+	"bufio"
 	"bytes"
 	"context"
 	"fmt"
 	"io"
 	"log/slog"
 	"math/rand/v2"
+	"net"
 	"net/http"
 	"net/http/httptest"
 	"net/url"
@@ -584,6 +586,19 @@ func (h *c20NestHandler) Handle(_ context.Context, r slog.Record) error {
 	return nil
 }
 
+// c20HijackWriter: a recorder whose connection can be taken over.
+type c20HijackWriter struct {
+	*httptest.ResponseRecorder
+	hijacked bool
+}
+
+func (w *c20HijackWriter) Hijack() (net.Conn, *bufio.ReadWriter, error) {
+	w.hijacked = true
+	a, b := net.Pipe()
+	_ = b.Close()
+	return a, bufio.NewReadWriter(bufio.NewReader(a), bufio.NewWriter(a)), nil
+}
+
 // c20MwFunc adapts a function to httputil.Middleware.
 type c20MwFunc func(http.Handler) http.Handler
 
@@ -713,6 +728,37 @@ func evalC20Wrap(f []string) Result {
 			}
 			if direct != "ok" {
 				break
+			}
+		}
+	}
+	// A request whose handler takes the connection over (Hijack), then ordinary requests through
+	// the same middleware, which get the pooled recorder back: each client still receives what its
+	// handler wrote and "finished" reports the handler's code.
+	if direct == "ok" {
+		rec := &c20NestRec{fin: map[string][]int{}}
+		mw := httputil.NewLogMiddleware(slog.New(&c20NestHandler{rec: rec, layer: "mw"}), slog.LevelInfo)
+		hijacker := mw.Wrap(http.HandlerFunc(func(w http.ResponseWriter, _ *http.Request) {
+			if conn, _, err := http.NewResponseController(w).Hijack(); err == nil {
+				_ = conn.Close()
+			}
+		}))
+		plain := mw.Wrap(http.HandlerFunc(func(w http.ResponseWriter, r *http.Request) {
+			w.WriteHeader(http.StatusTeapot)
+			_, _ = w.Write([]byte("after " + r.URL.Path))
+		}))
+		for round := 0; round < 3 && direct == "ok"; round++ {
+			hijacker.ServeHTTP(&c20HijackWriter{ResponseRecorder: httptest.NewRecorder()}, httptest.NewRequest(http.MethodGet, "/hijack", nil))
+			for k := 0; k < 4 && direct == "ok"; k++ {
+				cli := &c20HijackWriter{ResponseRecorder: httptest.NewRecorder()}
+				plain.ServeHTTP(cli, httptest.NewRequest(http.MethodGet, "/p", nil))
+				if cli.Code != http.StatusTeapot || cli.Body.String() != "after /p" {
+					direct = fail("after-hijack", "request %d after a hijacked one through the same LogMiddleware: client got %d %q, the handler wrote 418 \"after /p\"", k+1, cli.Code, cli.Body.String())
+				}
+			}
+		}
+		for _, c := range rec.fin["mw"] {
+			if c != http.StatusTeapot && c != http.StatusOK && c != 0 && direct == "ok" {
+				direct = fail("after-hijack", "\"finished\" codes %v", rec.fin["mw"])
 			}
 		}
 	}
